@@ -24,6 +24,9 @@ pub struct WriteFault {
     pub k: usize,
     /// bytes that reach the file before the failure
     pub tear: usize,
+    /// how the failure shows: false = an error return; true = the output takes the `tear` bytes and from then on accepts nothing (Ok(0) for every
+    /// further write: a full fixed-size target, a size-limited writer) - "cut short" without an error code
+    pub zero: bool,
 }
 
 #[derive(Clone, Debug)]
@@ -176,6 +179,9 @@ impl AsyncWrite for TraceFile {
     fn poll_write(mut self: Pin<&mut Self>, _cx: &mut Context<'_>, buf: &[u8]) -> Poll<io::Result<usize>> {
         let pos = self.pos as usize;
         let mut i = self.inner.lock().unwrap();
+        if i.fault.zero && i.fault_fired {
+            return Poll::Ready(Ok(0)); // the output is full: nothing more is accepted
+        }
         i.writes += 1;
         if !i.fd_baseline.is_empty() && !i.fd_reported && i.writes % 2 == 1 {
             let now = open_paths();
@@ -201,9 +207,13 @@ impl AsyncWrite for TraceFile {
         let end = (pos + buf.len()).min(i.data.len());
         let after = if end > pos { i.data[pos..end].to_vec() } else { vec![] };
         i.log.lock().unwrap().push(Ev::Io(IoEv::Write { off: pos as u64, data: buf.to_vec(), asked: buf.len(), fault, after }));
+        let zero = i.fault.zero;
         drop(i);
         self.pos += n as u64;
         if fault != 0 {
+            if zero {
+                return Poll::Ready(Ok(n)); // the part that fitted (possibly nothing); every later call gets Ok(0)
+            }
             return Poll::Ready(Err(io::Error::new(io::ErrorKind::Other, "injected write fault")));
         }
         Poll::Ready(Ok(n))
